@@ -22,7 +22,7 @@ INFO = {
                    "zkey_from_raw use read_zkey on ZKEY_BYTES / the caller's bytes without arkzkey and "
                    "read_arkzkey_from_bytes_uncompressed on ARKZKEY_BYTES with it; the embedded byte constants have the sizes of the "
                    "bundled resource files; the arkzkey reader copies each of the nine matrix fields to the same-named field.",
-    "r17_5": "R17-5: the tree back ends selectable by features agree on the high-water rule, the delete guard, the parent-recomputation shape, the subtree-root formula and (persistent back end) plain delegation to pmtree (shared with C06 R06-2..R06-5)",
+    "r17_5": "R17-5: the tree back ends selectable by features agree on what a rejected operation leaves behind (nothing), the high-water rule, the delete guard, the parent-recomputation shape, the subtree-root formula and (persistent back end) plain delegation to pmtree (shared with C06 R06-2..R06-5)",
     "not_decided": "identity of the keys/matrices stored in rln_final.zkey and rln_final.arkzkey and acceptance of messages across "
                    "configurations (needs running both loaders / provers); equality of roots across back ends over histories (C06)",
     "assumptions": ["rustc's type checking; the bundled resource files are the ones include_bytes! embeds (sizes compared)"],
@@ -210,6 +210,7 @@ def run(ctx):
     from ..main import Ctx as _Ctx
     sub = _Ctx(ctx.pid, ctx.tier)
     fbd = ctx.fb("default")
+    c06.check_atomic(sub, fbd, "default")
     c06.check_formulas(sub, fbd)
     c06.check_recompute(sub, fbd)
     c06.check_delegation(sub, fbd)
